@@ -2,6 +2,8 @@
 
 package pogreb
 
+import "github.com/akrylysov/pogreb/fs"
+
 // Verification-only exports. Compiled only with the "verif" build tag.
 
 // VerifSlot is an exported copy of an index slot.
@@ -180,4 +182,10 @@ func (it *ItemIterator) VerifQueued() int {
 	it.mu.Lock()
 	defer it.mu.Unlock()
 	return len(it.queue)
+}
+
+// VerifLockFile returns the lock file of the open database (to simulate the death of the process
+// that holds it).
+func (db *DB) VerifLockFile() fs.LockFile {
+	return db.lock
 }
